@@ -15,7 +15,7 @@ from vt.csym import NULL
 from vt.oblig import Obligation
 import props.c03 as c03
 
-from traits.api import (HasTraits, Any, Int, Event, Expression, observe, TraitError, Undefined, push_exception_handler,
+from traits.api import (HasTraits, Any, Int, Float, Event, Expression, observe, TraitError, Undefined, push_exception_handler,
                         pop_exception_handler)
 from traits.trait_base import Uninitialized
 from traits.constants import ComparisonMode
@@ -63,6 +63,15 @@ class NeAmbiguous:
     __hash__ = None
 
 
+class ReprRaises:
+    """a value that cannot be printed: whatever reports a failing handler must cope with it"""
+
+    def __repr__(self):
+        raise RuntimeError("repr raises")
+
+    __str__ = __repr__
+
+
 VALUE_KINDS = ["int", "same", "float", "none", "eqraises", "ambiguous"]
 
 
@@ -74,6 +83,8 @@ def mk_owner(kind, mode, raising):
         tr = Any(**md)
     elif kind == "int":
         tr = Int(**md)
+    elif kind == "float":
+        tr = Float(**md)
     elif kind == "event":
         tr = Event()
     else:
@@ -134,6 +145,8 @@ def mk_val(ex, i, kind, prev, sym, tkind="any"):
         return NeAmbiguous()
     if kind == "bad":
         return "not-an-int"
+    if kind == "reprraises":
+        return ReprRaises()
     if kind == "expr":
         return ["1+1", "2", "1+1"][ex.choice("e%d" % i, 3)]
     raise AssertionError(kind)
@@ -169,17 +182,30 @@ def read_attr(ex, it, o, name):
         return ("raised", type(e).__name__)
 
 
-def make_harness(tkind, mode, kinds, raising, first_read):
+def make_harness(tkind, mode, kinds, raising, first_read, default_eh=False):
+    """default_eh: leave observe's DEFAULT exception handler in place (it logs the failing handler with the event's values);
+    the log records go to a NullHandler"""
     k = len(kinds)
 
     def harness(ex):
+        import logging
         from traits.observation import exception_handling as _eh
         push_exception_handler(lambda *a: None, reraise_exceptions=False)
-        _eh.push_exception_handler(handler=lambda e: None, reraise_exceptions=False)
+        logger = logging.getLogger("traits")
+        null = logging.NullHandler()
+        if default_eh:
+            logger.addHandler(null)
+            old_prop, logger.propagate = logger.propagate, False
+        else:
+            _eh.push_exception_handler(handler=lambda e: None, reraise_exceptions=False)
         try:
             return body(ex)
         finally:
-            _eh.pop_exception_handler()
+            if default_eh:
+                logger.removeHandler(null)
+                logger.propagate = old_prop
+            else:
+                _eh.pop_exception_handler()
             pop_exception_handler()
 
     def body(ex):
@@ -191,10 +217,27 @@ def make_harness(tkind, mode, kinds, raising, first_read):
         prev = o.__dict__.get("x", Undefined)
         obs_out = []
         for i, kind in enumerate(kinds):
-            value = mk_val(ex, i, kind, prev if "x" in o.__dict__ else None, ex.sym, tkind)
+            value = None if kind == "quietbad" else mk_val(ex, i, kind, prev if "x" in o.__dict__ else None, ex.sym, tkind)
             had = "x" in o.__dict__
             old_readable = o.__dict__["x"] if had else (Undefined if tkind == "event" else o.trait("x").default_value()[1])
             n0 = {m: len(v) for m, v in logs.items()}
+            if kind == "quietbad":
+                # a quiet update (trait_setq / trait_set(trait_change_notify=False)) that fails: natively, on the real object
+                exc = None
+                try:
+                    if ex.choice("quiet_api%d" % i, 2):
+                        o.trait_setq(x="not-an-int")
+                    else:
+                        o.trait_set(trait_change_notify=False, x="not-an-int")
+                except TraitError as e:
+                    exc = e
+                ex.check(exc is not None, "a quiet update with an invalid value raises TraitError")
+                ex.check(all(len(v) == n0[m] for m, v in logs.items()), "... and reaches no handler")
+                ex.check(("x" in o.__dict__) == had and (not had or o.__dict__["x"] is old_readable), "... and leaves the value as it was")
+                if ex.sym:
+                    cenv.refresh_flags(it, o)
+                obs_out.append([False, False])
+                continue
             if ex.sym:
                 os_ = cenv.hastraits_struct(it, o)
                 with cenv.python_side_env():
@@ -209,6 +252,9 @@ def make_harness(tkind, mode, kinds, raising, first_read):
                     rc, err = -1, (type(e), e)
             accept = rc == 0
             stored = o.__dict__.get("x", None)
+            if tkind == "float" and accept and kind in ("float", "same"):
+                ex.check(stored is value, "an exact float is stored as the very object that was assigned")
+                stored = value          # identity below is about the object the user assigned
             if tkind == "event":
                 fires = accept
                 exp_old = Undefined
@@ -279,6 +325,24 @@ def obligations(tier, build):
                                   bounds={"history": list(seq), "comparison mode": mode.name,
                                           "trait": "Expression (stores the original value, validates to a code object)"},
                                   leverage="choice feasibility only (concrete strings)", max_paths=2000))
+        # Float trait: an exact float passes validation as the same object, so re-assigning it is no change (NaN included)
+        for seq in [("float", "same"), ("float", "float"), ("float", "same", "float")]:
+            obs.append(Obligation("float/%s/%s" % (mode.name, "-".join(seq)), make_harness("float", mode, seq, None, False), stubs=STUBS,
+                                  bounds={"history": list(seq), "comparison mode": mode.name, "payloads": "any Float64 (NaN, inf, -0.0)"},
+                                  leverage="equality of payloads (NaN)", fast_fp=True, max_paths=2000))
+        # a quiet update that fails must not leave notifications switched off
+        for seq in [("quietbad", "int"), ("int", "quietbad", "int"), ("int", "quietbad", "same")]:
+            obs.append(Obligation("int/%s/%s" % (mode.name, "-".join(seq)), make_harness("int", mode, seq, None, False), stubs=STUBS,
+                                  bounds={"history": list(seq), "comparison mode": mode.name,
+                                          "quiet update": "trait_setq / trait_set(trait_change_notify=False), natively"},
+                                  leverage="equality of payloads", max_paths=2000))
+        # a failing observe handler reported by observe's default exception handler, with values that cannot be printed
+        for seq in [("int", "reprraises"), ("reprraises", "int"), ("reprraises", "reprraises")]:
+            obs.append(Obligation("any/%s/%s/raise=observe/default-exception-handler" % (mode.name, "-".join(seq)),
+                                  make_harness("any", mode, seq, "observe", False, default_eh=True), stubs=STUBS,
+                                  bounds={"history": list(seq), "comparison mode": mode.name, "raising handler": "observe",
+                                          "exception handler": "observe's default (logging)"},
+                                  leverage="choice feasibility only", max_paths=2000))
     for raising in (None, "otc"):
         for seq in [("int", "same"), ("int", "int"), ("none", "none"), ("float", "same")]:
             obs.append(Obligation("event/%s/raise=%s" % ("-".join(seq), raising),
